@@ -25,6 +25,7 @@ from feems.components_model.component_mechanical import MechanicalPropulsionComp
 from feems.types_for_feems import TypeComponent, TypePower, Power_kW, Speed_rpm, SwbId
 
 THEOREMS = ["clamp_bounds", "fwd_ratio", "fwd_supply_ge_delivery", "fwd_reverse_supply_ge_delivery", "fwd_zero", "zero_flow",
+            "invC_bounds", "invC_abs_le", "invC_eq_of_abs_le", "invC_zero", "no_energy_created", "legacy_creates_energy", "invC_of_exact",
             "exact_inverse_no_energy", "roundtrip_exact", "roundtrip_exact'", "interp_inverse_partial", "knot_spacing",
             "strict_zero_residual", "array_eq_scalar", "serial_eff_bounds", "serial_equal_ratings", "serial_two_stage",
             "legacy_abscissa_wrong", "machine_roles"]
@@ -176,18 +177,18 @@ def conv_checks(ctx, comp, rated, curve, powers, where, strict=False, label=""):
         if p == 0 and (pin != 0 or pout != 0):
             ctx.fail("predicate", "zero-flow-nonzero", f"{label}zero flow gives in={pin} out={pout}", where)
         # (a) never creates energy, both conversions
-        bad = None
-        if p >= 0 and pin < p - tol:
-            bad = f"delivering {p} needs only {pin} supplied"
+        bad, more = None, False           # more: more power handed on than received (proved impossible for every interpolant
+        if p >= 0 and pin < p - tol:      # since D27); otherwise only the direction is wrong, which an extrapolated inverse does (D16)
+            bad, more = f"delivering {p} needs only {pin} supplied", True
         if p < 0 and not (p - tol <= pin <= tol):
-            bad = f"reverse flow {p} at the output gives {pin} at the input"
+            bad, more = f"reverse flow {p} at the output gives {pin} at the input", abs(pin) > abs(p) + tol
         if p > 0 and not (-tol <= pout <= p + tol):
-            bad = f"supplying {p} delivers {pout}"
+            bad, more = f"supplying {p} delivers {pout}", abs(pout) > abs(p) + tol
         if p <= 0 and pout > p + tol:
-            bad = f"reverse flow {p} at the input needs only {pout} at the output"
+            bad, more = f"reverse flow {p} at the input needs only {pout} at the output", True
         if bad:
             both = cov and covered(curve, rated, pin, pout)
-            ctx.fail("predicate", "energy-created" if both else D16, f"{label}{bad} (rated {rated})", where)
+            ctx.fail("predicate", "energy-created" if (both or more) else D16, f"{label}{bad} (rated {rated})", where)
         # (b) ratio on the forward branch = public clamped efficiency at that load
         eff = float(comp.get_efficiency_from_load_percentage(abs(p) / rated))
         if not (0.01 - 1e-12 <= eff <= 1 + 1e-12):
